@@ -37,7 +37,9 @@ def main():
     try:
         base = ctest(wt)
         demo = os.path.join(src, "demo.cpp")
-        extra = f"-I{wt}/include/m17cxx -I{wt}/apps -pthread -lcodec2 -lboost_program_options"
+        srcabs = os.path.abspath(src)
+        stubs = " ".join(f"-I{os.path.join(srcabs, d)}" for d in sorted(os.listdir(srcabs)) if os.path.isdir(os.path.join(srcabs, d)))
+        extra = f"-I{wt}/include/m17cxx -I{wt}/apps -I{srcabs} {stubs} -pthread -lcodec2 -lboost_program_options"
         rc0, o0 = sh(f"g++ -std=c++20 -I{wt}/include -I{wt} {demo} -o {wt}/_b/demo0 {extra} && {wt}/_b/demo0", timeout=900)
         meta["demo_without_patch_exit"] = rc0
         rc, out = sh(f"git -C {wt} apply {os.path.abspath(src)}/patch.diff")
@@ -80,6 +82,9 @@ def main():
     for f in ("patch.diff", "demo.cpp", "notes.md"):
         if os.path.exists(os.path.join(src, f)) and os.path.abspath(os.path.join(src, f)) != os.path.abspath(os.path.join(dst, f)):
             shutil.copy(os.path.join(src, f), os.path.join(dst, f))
+    for d in os.listdir(src):
+        if os.path.isdir(os.path.join(src, d)) and os.path.abspath(src) != os.path.abspath(dst):
+            shutil.copytree(os.path.join(src, d), os.path.join(dst, d), dirs_exist_ok=True)
     json.dump(meta, open(os.path.join(dst, "meta.json"), "w"), indent=1)
     print(f"[{sid}] detected_by: {meta['detected_by']}")
     return 0
